@@ -880,7 +880,10 @@ def maximal_programs():
     body.append(Line(["\t{"], "lbrace", 1, 0))
     body.append(Line(["\t\tif (", v3, " == ", v4, ")"], "ctrl", 2, 0, kw="if"))
     body.append(Line(["\t\t\tbreak ;"], "stmt", 3, 0, stmt="break"))
-    body.append(Line(["\t\t", v1, "++;"], "stmt", 2, 0, stmt="incdec"))
+    # casts to user-defined types and a parenthesised lone identifier INSIDE a braced block of a function that sits exactly
+    # at the line limit (anything that double-counts lines shows)
+    body.append(Line(["\t\t", v1, " = (size_t)", v2, " + (", v3, ");"], "stmt", 2, 0, stmt="assign"))
+    body.append(Line(["\t\t", v4, " = (t_len)", v1, ";"], "stmt", 2, 0, stmt="assign"))
     body.append(Line(["\t}"], "rbrace", 1, 0))
     body.append(Line(["\tputs(", c, ");"], "stmt", 1, 0, stmt="call"))
     pad = Slot("id", "x" * (80 - 4 - len("vb = 1 + ;")))
